@@ -1,7 +1,6 @@
 """Reasons for properties not claimed (kept in step with DESIGN.md section 4)."""
 NA = {
     "C06": "whole-document equivalence with a conforming JSON parser needs a verified value-level parser as oracle plus String/Cow/f64 parsing in the cone; no contract within reach of Verus or Kani expresses it",
-    "C08": "the 600-line recursive-descent validator against the RFC 8259 grammar is a verified-parser project (mutual recursion, grammar spec over byte sequences, error-position reasoning) that did not fit; leaf contracts alone would not decide the property",
     "C10": "floating-point shortest-round-trip printing through core::fmt/dec2flt: Verus has no float reasoning and CBMC cannot bit-blast Grisu/Ryu plus decimal parsing in any useful bound",
     "C11": "observable only as CLI stdout of `succinctly jq` across printer routes (cli binary over String/IndexMap/f64); outside both verifiers",
     "C14": "correctness of the 7k-line context-sensitive YAML parser against YAML 1.2 for all presentations: no tractable spec function and no per-function decomposition that carries it",
